@@ -76,6 +76,9 @@ class Ctx:
         self.solver_time += dt
         if dt > self.max_query_s:
             self.max_query_s = dt
+        if dt > 5 and os.environ.get("SYMX_DUMP_DIR"):
+            with open(os.path.join(os.environ["SYMX_DUMP_DIR"], f"slow_{os.getpid()}_{self.queries}.smt2"), "w") as f:
+                f.write(s.to_smt2())
         if r == z3.sat:
             return "sat", s.model()
         if r == z3.unsat:
